@@ -1,4 +1,4 @@
 SPECIFICATION Spec
-CONSTANTS MaxRound = 2  NoRefit = FALSE  EmitBeh = TRUE
+CONSTANTS MaxRound = 2  Mutation = "none"  EmitBeh = TRUE
 CHECK_DEADLOCK FALSE
 INVARIANT Emit
